@@ -3,6 +3,7 @@ package lib
 import (
 	"encoding/json"
 	"fmt"
+	"io"
 	"reflect"
 	"strconv"
 	"strings"
@@ -176,6 +177,9 @@ func (c *Ctx) RunScript(ops []SOp, p redact.SafePrinter, st fmt.State, verb rune
 			case "Write":
 				st.Write(c.Subst(op.B))
 				continue
+			case "WriteString":
+				io.WriteString(st, string(c.Subst(op.B)))
+				continue
 			case "Discover":
 				if sp, ok := st.(redact.SafePrinter); ok {
 					p = sp
@@ -222,6 +226,8 @@ func (c *Ctx) RunScript(ops []SOp, p redact.SafePrinter, st fmt.State, verb rune
 			p.SafeInt(redact.SafeInt(op.N))
 		case "Write":
 			p.Write(c.Subst(op.B))
+		case "WriteString":
+			io.WriteString(p, string(c.Subst(op.B)))
 		case "Print":
 			p.Print(c.Values(op.Ts)...)
 		case "Printf":
